@@ -536,7 +536,16 @@ private:
                 // termination happened while processing the event last_completed: acceptable only if the instant could not be met any more
                 const long e = last_completed_K;
                 const long left = p.instant - e;
-                if (d16 == 1 || left <= 1) { M.cls("outcome_instant_passed"); M.cls("boundary_next_event_terminated"); continue; }
+                // A connection update whose instant is the next event changes the timing of an event that is already planned: the
+                // statement leaves open whether that instant "can still be met", either outcome is accepted. A channel map or PHY
+                // update only changes channel / PHY of the next event and can be met (seeded change C21_next_event_instant...).
+                if (kind == "conn_update" && (d16 == 1 || left <= 1)) { M.cls("outcome_instant_passed"); M.cls("boundary_next_event_terminated"); continue; }
+                if (kind != "conn_update" && left <= 1 && d16 != 1) { M.cls("outcome_instant_passed"); M.cls("boundary_next_event_terminated"); continue; }
+                if (kind != "conn_update" && d16 == 1) {
+                    viol("C21", "C21:" + kind + ":terminated_although_next_event_instant_can_be_met",
+                         head + "terminated with Instant Passed although the instant is the event after the one in which the indication was received");
+                    continue;
+                }
                 viol("C21", "C21:" + kind + ":terminated_although_instant_in_future",
                      head + "terminated with Instant Passed at central event " + std::to_string(e) + ", " + std::to_string(left) + " events before the instant");
                 continue;
